@@ -51,6 +51,7 @@ class GenConfig:
     max_outputs: int = 4
     max_fixups: int = 5
     max_world_solids: int = 3
+    min_world_solids: int = 0
     max_ent_solids: int = 2
     max_sides: int = 5              # arbitrary (non-prism) solids have 1..max_sides faces
     max_text: int = 10
@@ -424,7 +425,8 @@ def entity_descs(cfg: GenConfig = DEFAULT, world: bool = False, brush: Optional[
     solids = st.just([])
     if cfg.solids and brush is not False:
         lim = cfg.max_world_solids if world else cfg.max_ent_solids
-        solids = st.lists(solid_descs(cfg), min_size=1 if brush else 0, max_size=lim)
+        low = cfg.min_world_solids if world else (1 if brush else 0)
+        solids = st.lists(solid_descs(cfg), min_size=min(low, lim), max_size=lim)
     logical = st.none()
     if not world:
         logical = _pick(
@@ -805,9 +807,8 @@ def output_content(out) -> dict:
 
 
 def entity_content(ent) -> dict:
-    keys = {}
-    for k in ent:            # Mapping protocol: iteration yields the stored key casing
-        keys[k] = ent[k]
+    # Mapping protocol: iteration yields the stored key casing.  A sorted pair list, not a dict: keys are arbitrary strings.
+    keys = sorted([k, ent[k]] for k in ent)
     fix = []
     if len(ent.fixup):
         fix = sorted(([f.var, f.value, f.id] for f in ent.fixup.copy_values()), key=lambda t: (t[2], t[0]))
@@ -878,7 +879,7 @@ def normalise_roundtrip(content: dict, minimal: bool = False, disp_multiblend: b
     w = c['world']
     for k in ('hidden', 'groups', 'vis_ids', 'vis_shown', 'vis_auto_shown', 'logical_pos'):
         w[k] = None                                    # "Worldspawn can't be hidden, so skip these."
-    w['keys'] = {k: v for k, v in w['keys'].items() if k.casefold() != 'mapversion'}
+    w['keys'] = [[k, v] for k, v in w['keys'] if k.casefold() != 'mapversion']
     for ent in [w] + c['entities']:
         for sol in ent['solids']:
             if ent is not w:                           # Solid.export: groups "not allowed inside brush entities"
